@@ -163,7 +163,9 @@ impl Scenario for WalletScenario {
                 2 => {
                     if s.dirty_fork.is_none() && tip > base {
                         ctx.op("scan_arbitrary");
-                        s.refresh_roots_if_stale(ctx).or_else(|v| ctx.report(v))?;
+                        if ch.chance("scan.new_session", 1, 3) {
+                            s.refresh_roots_if_stale(ctx).or_else(|v| ctx.report(v))?;
+                        }
                         let Some((from, limit)) = self.pick_range(&mut s, ch, 40) else {
                             ch.close();
                             continue;
